@@ -549,7 +549,10 @@ def local_session_probe(ctx, rep: Report, n, only=None):
             return super().delete(name)
 
     trials = only if only is not None else [(ctx.rng.choice(['snapshot', 'delete']), k, enc) for k in range(n) for enc in (False, True)][:n]
+    hangs = 0
     for victim, k, enc in trials:
+        if hangs >= 2:
+            break           # a session that hangs after a failed command hangs every time: no need to wait for all of them
         wd = Path(ctx.scratch) / f'session-{victim}-{k}-{int(enc)}'
         shutil.rmtree(wd, ignore_errors=True)
         (wd / 'a').mkdir(parents=True)
@@ -641,7 +644,10 @@ def local_session_probe(ctx, rep: Report, n, only=None):
         err = None
         with quiet()[0], quiet()[1]:
             try:
-                asyncio.run(asyncio.wait_for(go(), 240))
+                asyncio.run(asyncio.wait_for(go(), 75))
+            except (asyncio.TimeoutError, TimeoutError):
+                hangs += 1
+                err = 'the session does not get through clean / new snapshot / audit within 75 s (a command after the failed one hangs)'
             except Exception as e:
                 err = f'{type(e).__name__}: {str(e)[:160]}'
         shutil.rmtree(wd, ignore_errors=True)
